@@ -82,4 +82,62 @@ def c13 (g : Globals) (dbOld dbNew : DB) (_old _new : List Stmt) : Option String
   if g.dialect == .sqlite && (needsColumnRemoval dbNew dbOld || needsColumnRemoval dbOld dbNew) then some "excluded:sqlite-column-removal"
   else common g dbOld dbNew
 
+-- ---------------------------------------------------------------------------------------------------------------
+-- scripts (C05, C09)
+
+def colDefPlain (c : ColDef) : Bool := c.opts.isEmpty
+
+/-- MODIFY COLUMN of a primary-key column by a definition that does not repeat PRIMARY KEY: the database keeps the
+    key, sqlize's model (key = an option of the column) loses it.  Evaluated along the script on the reference engine. -/
+def modifiesPkColumn : DB → List Stmt → Bool
+  | _, [] => false
+  | db, s :: rest =>
+    let here := match s with
+      | .modifyColumn t c => (db.pk t).contains c.name && !(c.opts.any (·.kind == .primaryKey))
+      | _ => false
+    here || (match exec true db s with
+      | some db' => modifiesPkColumn db' rest
+      | none => false)
+
+/-- identifiers the postgres parser prints back with quotes (reserved words); in ALTER statements the reader uses the
+    printed form, so such a table or column becomes a second, quoted one (F24) -/
+def pgQuoted (n : String) : Bool := ["select", "order", "group", "desc", "index", "key", "user", "table", "column"].contains n
+
+/-- the fragment of the vocabulary the postgres reader glue understands: plain CREATE TABLE, ADD COLUMN without
+    position, DROP COLUMN, and CREATE INDEX directly after a statement on the same table (the reader attaches an index
+    to the table of the previous statement) -/
+def pgFragment : String → List Stmt → Bool
+  | _, [] => true
+  | cursor, s :: rest =>
+    match s with
+    | .createTable t _ cols pk => cols.all colDefPlain && pk.isEmpty && pgFragment t rest
+    | .addColumn t c .none => colDefPlain c && !pgQuoted t && !pgQuoted c.name && pgFragment cursor rest
+    | .dropColumn t c => !pgQuoted t && !pgQuoted c && pgFragment cursor rest
+    | .createIndex t _ _ _ u => t == cursor && u == "" && pgFragment cursor rest
+    | _ => false
+
+/-- the fragment the sqlite reader glue understands: CREATE TABLE without DEFAULT, CREATE INDEX -/
+def sqliteFragment : List Stmt → Bool
+  | [] => true
+  | s :: rest =>
+    match s with
+    | .createTable _ _ cols pk =>
+      cols.all (fun c => c.opts.all (fun o => o.kind == .notNull || o.kind == .primaryKey)) && pk.isEmpty && sqliteFragment rest
+    | .createIndex _ _ _ _ u => u == "" && sqliteFragment rest
+    | _ => false
+
+def c05 (g : Globals) (_db : DB) (ss : List Stmt) : Option String :=
+  match g.dialect with
+  | .postgres => if pgFragment "" ss then none else some "postgres-reader-vocabulary"
+  | .sqlite => if sqliteFragment ss then none else some "sqlite-reader-vocabulary"
+  | .mysql =>
+    if ss.any (fun s => match s with | .renameColumn .. => true | _ => false) then some "rename-column"
+    else if modifiesPkColumn [] ss then some "pk-column-modified"
+    else none
+
+def c09 (g : Globals) (db : DB) (ss : List Stmt) : Option String :=
+  match g.dialect with
+  | .mysql => none
+  | _ => c05 g db ss
+
 end Sqlize.Spec.Scope
